@@ -232,6 +232,12 @@ def r7(ctx):
     ok_i = any(k2.describe_operand(P, body, s["r"]["o"]) == ("int", 0, "usize") and (b == 0 or c.postdominates(b, 0)) for b, s in wi if s["r"].get("k") == "use")
     ctx.ob("set_mask stores mask", ok_m, "set_mask does not unconditionally store its argument into self.mask", site=body.get("def_span"))
     ctx.ob("set_mask rewinds", ok_i, "set_mask does not unconditionally reset self.index to 0", site=body.get("def_span"))
+    # ... and nothing else: in particular the position inside a group of promotion pieces survives (a destination is cleared only after its
+    # last piece, so restarting the piece cursor would hand out the pieces already yielded a second time)
+    fields = [f["name"] for f in P.adt(MG)["variants"][0]["fields"]]
+    touched = sorted(f for f in fields if f not in ("mask", "index", "moves") and k2.assigns_to_field(P, key, MG, f))
+    ctx.ob("set_mask frame", not touched, f"set_mask also writes {touched}; it must change only the mask, the cursor and the order of the entries", site=body.get("def_span"),
+           sample={"fields": fields})
     loops = c.loops()
     # compaction: one loop over the entries that swaps (mem::swap through pointers, or slice::swap by index) the non-empty ones to the front
     swaps = [t["f"].get("fn", "") for _, t in P.calls(key) if t["f"].get("fn", "").endswith("mem::swap") or t["f"].get("fn", "").endswith("]>::swap")]
